@@ -259,10 +259,14 @@ impl FixtureDatabase {
             fixture_name, file_path
         );
 
+        // Earlier same-named definitions in the file are dead (the name was rebound): when
+        // the last one is filtered out - it is the fixture asking for its own name - the
+        // lookup goes outward, not back to an overwritten definition.
         if let Some(last_def) = definitions
             .iter()
-            .filter(|def| def.file_path == file_path && filter(def))
+            .filter(|def| def.file_path == file_path)
             .max_by_key(|def| def.line)
+            .filter(|def| filter(def))
         {
             info!(
                 "Found fixture {} in same file at line {}",
@@ -298,8 +302,9 @@ impl FixtureDatabase {
             // (the last definition wins, as in the same file)
             if let Some(def) = definitions
                 .iter()
-                .filter(|def| def.file_path == conftest_path && filter(def))
+                .filter(|def| def.file_path == conftest_path)
                 .max_by_key(|def| def.line)
+                .filter(|def| filter(def))
             {
                 info!(
                     "Found fixture {} in conftest.py: {:?}",
